@@ -108,8 +108,53 @@ pub fn check(c: &StrCase) -> Verdict {
     Verdict::Pass(Pass::new(format!("{}/{}{}{}", c.stratum, if latin { "latin1" } else { "utf8-eci" }, if macro_env { "/macro" } else { "" }, if c.cfg.is_some() { "/builder-config" } else { "" }), !latin || macro_env))
 }
 
+/// code points at the edges of the UTF-8 length classes, of the Latin-1 / printable ranges, and
+/// the ones decoders like to treat specially (BOM, replacement character, non-characters, line
+/// and paragraph separators)
+pub const SPECIAL_CHARS: [u32; 40] = [
+    0x00, 0x01, 0x09, 0x0a, 0x0d, 0x1d, 0x1e, 0x1f, 0x20, 0x7e, 0x7f, 0x80, 0x9f, 0xa0, 0xad, 0xd7, 0xf7, 0xff, 0x100, 0x131, 0x7ff, 0x800, 0xfff, 0x1000, 0x2028, 0x2029,
+    0xd7ff, 0xe000, 0xfdd0, 0xfeff, 0xfffd, 0xfffe, 0xffff, 0x10000, 0x1f600, 0x1fffe, 0x1ffff, 0xe0000, 0x10fffe, 0x10ffff,
+];
+
+/// every scalar value of a block as one-character string, at the start / alone / at the end of a
+/// short string and as macro body
+#[derive(Debug, Clone)]
+pub struct ScalarStrings {
+    pub start: u32,
+    pub len: u32,
+    pub step: u32,
+}
+
+impl Case for ScalarStrings {
+    fn to_json(&self) -> Value {
+        json!({"scalar_start": self.start, "len": self.len, "step": self.step})
+    }
+}
+
+fn check_scalar_strings(c: &ScalarStrings) -> Verdict {
+    let mut n = 0u64;
+    let mut cp = c.start;
+    while cp < c.start + c.len {
+        if let Some(ch) = char::from_u32(cp) {
+            let forms = [format!("{}", ch), format!("{}ab", ch), format!("A1{}", ch), format!("[)>\u{1e}05\u{1d}{}\u{1e}\u{04}", ch)];
+            // all four forms for the special code points and every 64th one, the bare character otherwise
+            let k = if SPECIAL_CHARS.contains(&cp) || cp % 64 == 0 { 4 } else { 1 };
+            for f in forms.into_iter().take(k) {
+                n += 1;
+                match check(&StrCase { s: f, cfg: None, stratum: "scalar" }) {
+                    Verdict::Pass(_) => {}
+                    other => return other,
+                }
+            }
+        }
+        cp += c.step;
+    }
+    Verdict::Pass(Pass::new("scalar-strings", true).count("scalar_strings", n))
+}
+
 fn g_char(kind: usize) -> BoxedStrategy<char> {
     match kind {
+        5 => (0usize..SPECIAL_CHARS.len()).prop_map(|i| char::from_u32(SPECIAL_CHARS[i]).unwrap()).boxed(),
         0 => prop_oneof![(0x20u32..0x7f), (0xa0u32..0x100)].prop_map(|c| char::from_u32(c).unwrap()).boxed(),
         1 => prop_oneof![(0u32..0x20), (0x7fu32..0xa0), (0x20u32..0x7f)].prop_map(|c| char::from_u32(c).unwrap()).boxed(),
         2 => prop_oneof![(0x100u32..0x800), (0x800u32..0xd800), (0xe000u32..0x10000)].prop_map(|c| char::from_u32(c).unwrap_or('\u{fffd}')).boxed(),
@@ -125,6 +170,12 @@ fn g_body(max: usize) -> BoxedStrategy<(String, &'static str)> {
         2 => vec(g_char(2), 1..max / 2).prop_map(|v| (v.into_iter().collect(), "bmp")),
         1 => vec(g_char(3), 1..max / 4).prop_map(|v| (v.into_iter().collect(), "astral")),
         3 => vec(g_char(4), 0..max).prop_map(|v| (v.into_iter().collect(), "mixed")),
+        // boundary / special code points, alone or around ordinary text
+        2 => (vec(g_char(5), 1..4), vec(g_char(0), 0..8), any::<u8>()).prop_map(|(sp, txt, k)| {
+            let sp: String = sp.into_iter().collect();
+            let txt: String = txt.into_iter().collect();
+            (match k % 3 { 0 => format!("{}{}", sp, txt), 1 => format!("{}{}", txt, sp), _ => { let (a, b) = txt.split_at(txt.char_indices().nth(txt.chars().count() / 2).map_or(0, |x| x.0)); format!("{}{}{}", a, sp, b) } }, "special-code-points")
+        }),
         // digits / upper case runs (trigger C40, X12, EDIFACT end-of-data handling behind the ECI prefix)
         2 => g_bytes_len(1, 6, 8, 40).prop_map(|b| (b.into_iter().map(|x| (x & 0x7f) as char).collect(), "ascii-class-runs")),
     ]
@@ -266,12 +317,19 @@ fn run(ctx: &Arc<Ctx>) {
         .map(|s| StrCase { s: s.to_string(), cfg: None, stratum: "fixed" })
         .collect();
     ctx.run_enumerated("fixed", "str", fixed, None, check);
+    // every scalar value as a string of its own: complete for the BMP in both tiers, every 16th astral
+    // code point in quick and all of them in thorough
+    let mut sblocks: Vec<ScalarStrings> = (0..0x10000u32).step_by(0x100).map(|s| ScalarStrings { start: s, len: 0x100, step: 1 }).collect();
+    let astral_step = if ctx.quick() { 16 } else { 1 };
+    sblocks.extend((0x10000..0x110000u32).step_by(0x1000).map(|s| ScalarStrings { start: s, len: 0x1000, step: astral_step }));
+    ctx.run_enumerated("scalar-strings", "scalarstr", sblocks, if ctx.quick() { Some("every BMP scalar value (and every 16th astral one) as a one-character string through encode_str / decode_str; special code points also at the start / end of text and as macro body") } else { Some("every Unicode scalar value as a one-character string through encode_str / decode_str; special code points also at the start / end of text and as macro body") }, check_scalar_strings);
     ctx.run_generated("strings", "str", ctx.cases(400_000, 6_000_000), g_str, check);
 }
 
 fn replay(_ctx: &Ctx, kind: &str, case: &Value) -> Option<Verdict> {
     match kind {
         "str" => Some(check(&StrCase::from_json(case)?)),
+        "scalarstr" => Some(check_scalar_strings(&ScalarStrings { start: case["scalar_start"].as_u64()? as u32, len: case["len"].as_u64()? as u32, step: case["step"].as_u64()? as u32 })),
         "byte" => Some(check_byte(&ByteCase(case["byte"].as_u64()? as u8))),
         "scalars" => Some(check_scalars(&ScalarBlock { start: case["scalar_start"].as_u64()? as u32, len: case["len"].as_u64()? as u32 })),
         _ => None,
